@@ -165,8 +165,6 @@ package bgp
 //@   claims bounds div0 make
 //@ func (*PathAttributeIP6ExtendedCommunities).DecodeFromBytes
 //@   claims bounds div0 make
-//@ func (*PathAttributePmsiTunnel).DecodeFromBytes
-//@   claims bounds div0 make
 //@ func (*RouteDistinguisherFourOctetAS).DecodeFromBytes
 //@   claims bounds div0 make
 //@ func (*RouteDistinguisherIPAddressAS).DecodeFromBytes
